@@ -72,17 +72,23 @@ def run(res, tier):
                             d2 = (12.0 / (n - 1)) ** 2
                             if 2.0 / (td * mode[1]) / d2 > 0.5:
                                 continue      # outside the explicit Fokker-Planck scheme's stable range (e1/cell^2 <= 1/2)
-                            cases.append((imp, cur, n, mode, td, zoom))
+                            cases.append((imp, cur, n, mode, td, zoom, ()))
     pl.warm(exe, [["-s", n, "-N", 8, "-T", 0.125, "--padding", 4] + IMPS["collimator"] for n in ns], "c05warm")
+    # single deviations of the numerical options from the base run (collimator, middle current): each must leave the relation intact
+    DEV = [["--InterpolationPoints", 3], ["--derivation", 3], ["--PhaseSpaceSize", 10], ["--PhaseSpaceShiftX", 2], ["--PhaseSpaceShiftY", -2], ["--alpha0", 3.5e-3],
+           ["--RenormalizeCharge", 5], ["--LinearRF", "false"], ["--padding", 2], ["--InterpolationPoints", 3, "--derivation", 3]]
+    devs = DEV if tier == "thorough" else DEV[:6]
+    for dv in devs:
+        cases.append(("collimator", CURRENTS["collimator"][1], 64, ("Ts", 128), 2.0, 1.2, tuple(dv)))
 
     def do(c):
-        imp, cur, n, (mode, steps), td, zoom = c
-        a = ["-s", n, "-T", 10 * td, "-n", steps // 2, "-f", FS, "-d", td / FS, "-I", cur, "--InitialDistZoom", zoom, "--padding", 4] + IMPS[imp]
+        imp, cur, n, (mode, steps), td, zoom, dev = c
+        a = ["-s", n, "-T", 10 * td, "-n", steps // 2, "-f", FS, "-d", td / FS, "-I", cur, "--InitialDistZoom", zoom] + (["--padding", 4] if "--padding" not in dev else []) + IMPS[imp] + list(dev)
         if mode == "Ts":
             a += ["-N", steps]
         else:
             a += ["--StepsPerRevolution", steps * FS / FREV, "-N", 1000]
-        tag = "%s_%g_%d_%s%d_%g_%g" % (imp, cur, n, mode, steps, td, zoom)
+        tag = "%s_%g_%d_%s%d_%g_%g_%s" % (imp, cur, n, mode, steps, td, zoom, "_".join(str(x).strip("-") for x in dev))
         r = pl.run(exe, a, wd, out="o_%s.h5" % tag, timeout=600)
         doc = pl.h5(r["h5"], maxv=2000000) if r["rc"] == 0 else None
         for f in (r["h5"], r["h5"] + ".cfg", r["h5"] + ".log"):
@@ -94,8 +100,8 @@ def run(res, tier):
 
     table = []
     for c, r, doc in pl.pmap(do, cases):
-        imp, cur, n, (mode, steps), td, zoom = c
-        case = "impedance=%s current=%g n=%d steps=%d(per %s) Td=%g zoom=%g" % (imp, cur, n, steps, mode, td, zoom)
+        imp, cur, n, (mode, steps), td, zoom, dev = c
+        case = "impedance=%s current=%g n=%d steps=%d(per %s) Td=%g zoom=%g%s" % (imp, cur, n, steps, mode, td, zoom, (" deviation=" + " ".join(map(str, dev))) if dev else "")
         rp = dict(cmd=r["cmd"])
         if doc is None or "error" in doc or "/WakePotential/data" not in doc.get("datasets", {}):
             res.violate("C05/run-failed", case, "rc=%s %s" % (r["rc"], r["log"][-200:]), replay=rp)
@@ -114,11 +120,14 @@ def run(res, tier):
             continue
         d = 12.0 / (n - 1)
         e1 = 2.0 / (td * steps)
-        bound = 0.003 + 2.5 * e1 + 0.02 * m["D"]
+        # the 3-point derivative stencil has a larger discretisation error of the equilibrium width (C04: up to 0.45 cell^2 on sigma,
+        # i.e. up to 4*0.45 cell^2 on q^2/2 at |q| = 2); measured 0.85 cell^2
+        three = "--derivation" in dev and dev[dev.index("--derivation") + 1] == 3
+        bound = 0.003 + 2.5 * e1 + 0.02 * m["D"] + (1.8 * d * d if three else 0)
         res.coverage["worst_residual_over_bound"] = max(res.coverage.get("worst_residual_over_bound", 0), m["residual"] / bound)
         if m["residual"] > bound:
             res.violate(key + "/haissinski-residual", case, "residual spread %.4f > bound %.4f (wake term D = %.3f, energy spread %.4f)" % (m["residual"], bound, m["D"], m["sE"]), replay=rp)
-        if abs(m["sE"] - 1) > 0.003 + 0.1 * d * d:
+        if abs(m["sE"] - 1) > 0.003 + (0.45 if three else 0.1) * d * d:
             res.violate(key + "/energy-spread", case, "energy spread %.5f in the stationary state" % m["sE"], replay=rp)
     res.coverage["table"] = [dict(case=c, residual=round(m["residual"], 4), D=round(m["D"], 3), sE=round(m["sE"], 4), stationarity=float("%.2g" % m["stationarity"])) for c, m in table][:60]
     res.rule = ("one evaluation = one run of the real binary to stationarity (10 damping times) and the Haissinski residual of its last record; "
